@@ -30,15 +30,19 @@
                                 validateFederationKeys enforce; excludes schemas with non-federated objects);
       [calls_ok g calls]        the data is well typed: object-typed fields yield (lists of) objects of that type,
                                 union-typed fields members of the union, scalar-typed fields scalars;
-      [forallb qwf q]           the query has no directive on a field selection (directives on fragments are
-                                covered) and is shaped as the parser delivers it;
+      [forallb qwf q]           the query is shaped as the parser delivers it (a selection without a selection set
+                                has no sub-selections); @skip/@include are unrestricted: on field selections
+                                (__typename, repeated aliases included), on fragments, both on one node;
       [flat_ok g "Query" flat]  the normalised query selects known fields, uses no reserved alias
-                                (_federation, __key; __typename only for __typename), and every union
-                                selection covers every member of the union with a non-empty fragment;
+                                (_federation, __key; __typename only for __typename), keeps no selection its
+                                directives exclude (true by construction of the repaired flattener, patches/C06-fix-4),
+                                and every union selection covers every member with a non-empty fragment;
       [plan_root .. = Some p]   the planner produces a plan (for the implementation: compared on every run).
     Outside these premises the property is FALSE of the implementation in known ways (DESIGN F4/F5/F17 and the
-    findings in KNOWN_FINDINGS: partial union coverage, same alias with different directives), or not modelled
-    (non-federated objects); the harness' oracle covers those cases end to end.
+    findings in KNOWN_FINDINGS: partial union coverage), or not modelled (non-federated objects); the harness'
+    oracle covers those cases end to end.  The flattener as it was (selections excluded by their own
+    directives took part in the grouping by alias, [fed_exec_gen false]) violated the property:
+    [gateway_merges_excluded_selection_refuted].
     NOT proved: that [plan_root] succeeds whenever the premises on [g] and [flat] hold (it is a premise), and
     the relation between [eval_ref .. true] and [eval_ref .. false] (removing the __typename entries the query
     did not ask for), which the harness' comparison implements. *)
@@ -134,13 +138,12 @@ Theorem subquery_closed :
 Proof. exact PlannerProofs.subquery_closed. Qed.
 Print Assumptions subquery_closed.
 
-(** (2) Normalisation keeps every selection, one level of [flatten], directives on fields included
+(** (2) Normalisation keeps every selection, one level of [flatten]
     ([normalisation_preserves_meaning] is the statement for whole queries).
-    a: flattenFragments, after the @skip/@include filter planObject applies, is exactly CollectFields;
+    a: flattenFragments (as repaired) is exactly CollectFields, directives honoured;
     b: mergeSameAlias (as repaired) gives each alias exactly the sub-selections the query gave it, in order. *)
 Theorem normalisation_keeps_every_selection :
-  (forall g obj l flat, flatten_frags g obj l = Some flat ->
-     filter incl_node flat = collect_all g obj l) /\
+  (forall g obj l flat, flatten_frags g obj l = Some flat -> flat = collect_all g obj l) /\
   (forall l r, Forall hs_ok l -> merge_same_alias false l = Some r -> forall a, subs_of a r = subs_of a l).
 Proof. split; [exact NormalizeProofs.flatten_frags_collects | exact NormalizeProofs.merge_same_alias_keeps_subs]. Qed.
 Print Assumptions normalisation_keeps_every_selection.
@@ -185,6 +188,19 @@ Proof.
 Qed.
 Print Assumptions gateway_fails_on_null_at_hop_refuted.
 
+(** patches/C06-fix-4: a selection excluded by its own directives was merged with a kept one of the same alias (the group took
+    the first one's directives, and planObject dropped it): { self @skip(if: true) { p } self { q } } lost self. *)
+Theorem gateway_merges_excluded_selection_refuted :
+  exists w g pick q,
+    option_map norm (fed_exec_gen false w g pick false true q) <> option_map norm (eval_ref w g false 9 "Query" 0%Z q) /\
+    option_map norm (fed_exec w g pick false true q) = option_map norm (eval_ref w g false 9 "Query" 0%Z q).
+Proof.
+  exists ww, wg, pick1, q_excl. destruct excl_repaired as [H1 H2]. split.
+  - rewrite excl_original, H2. intros H. discriminate.
+  - rewrite H1, H2. reflexivity.
+Qed.
+Print Assumptions gateway_merges_excluded_selection_refuted.
+
 (** Non-vacuity of (1): the witness federation satisfies [fed_ok], the F15 query normalises and plans, and
     its plan has a hop (a sub-plan under the sub-plan of s1). *)
 Example subquery_closed_nonvacuous :
@@ -200,7 +216,7 @@ Proof.
 Qed.
 
 (** Non-vacuity of the main theorem: a federation with a union of keyed objects, a finite table of resolver
-    results with nulls, a query with repeated and directive-carrying fragments satisfies all premises; both
+    results with nulls, a query with repeated fragments and @skip/@include on fields (one carrying both, one on an alias used elsewhere) and on a fragment satisfies all premises; both
     sides answer (the same map), and the plan hops to a second service below each union member. *)
 Example federation_transparent_nonvacuous :
   premises wg2 calls2 pick1 q2 = true /\
